@@ -1027,13 +1027,17 @@ pub(super) fn poll_recv(
         }
         let local = bound_endpoint(st);
         let tcb = st.tcb.as_mut().unwrap();
+        // The peer was last told "window 0" if the buffer was full: it
+        // then has nothing in flight and no retransmit timer running,
+        // so it only resumes once we advertise the re-opened window.
+        let window_was_zero = tcb.recv_buf.len() >= recv_cap;
         let n = tcb.recv_buf.len().min(buf.len());
         let drained = tcb.recv_buf.split_to(n);
         buf[..n].copy_from_slice(&drained);
-        // Window-update trigger: if we freed ≥ half the recv cap,
-        // advertise. Crude SWS avoidance; refine alongside real flow
-        // control.
-        let should_update = n >= recv_cap / 2;
+        // Window-update trigger: if we freed ≥ half the recv cap, or
+        // re-opened a closed window, advertise. Crude SWS avoidance;
+        // refine alongside real flow control.
+        let should_update = n >= recv_cap / 2 || (window_was_zero && n > 0);
         (n, should_update, local, peer)
     };
 
